@@ -1850,6 +1850,46 @@ func TestVerifC07(t *testing.T) {
 //                       amounts -> fingerprint C07:caller-supplied-removal
 // ---------------------------------------------------------------------------------------------------------------
 
+// EXTENSION 6 - the gpu-memory / gpu-memory-ratio pair of ONE device describes the same memory: whatever dimension the
+// pod did not request is charged from the other one and the total of THE DEVICE THE ENTRY IS ON (not of any other GPU of
+// the node: GPUs of one node may have different memory sizes).  Independent oracle, from the per-GPU request, the committed
+// entry and the device's own total T (value ledger read before the commit):
+//   by ratio (pod requests gpu-memory-ratio r, no bytes):  bytes charged = r * T / 100 (whole bytes)
+//   by bytes (pod requests gpu-memory b, no ratio):        ratio charged within one whole percent of 100 * b / T
+//                                                          (memoryBytesToRatio truncates a float quotient)
+// exposes = the device exposes both names.  Returns false after a Fail.
+func c07MemPairCheck(h *vHarness, where string, minor int, req, vec c07Vec, T int64, exposes bool) bool {
+	if !exposes || T <= 0 {
+		return true
+	}
+	switch {
+	case req[2] >= 0 && req[1] < 0: // by ratio
+		h.Tag("mempair:by-ratio")
+		if want := req[2] * T / 100; vec[1] != want {
+			h.Fail("C07:memory-pair-not-of-this-device:by-ratio", "%s: GPU %d (gpu-memory total %d) is charged gpu-memory %d for gpu-memory-ratio %d; %d percent of THIS device's memory is %d", where, minor, T, vec[1], req[2], req[2], want)
+			return false
+		}
+	case req[1] >= 0 && req[2] < 0: // by bytes
+		h.Tag("mempair:by-bytes")
+		if r := vec[2]; r < 0 || !((r-1)*T < 100*req[1] && 100*req[1] < (r+2)*T) {
+			h.Fail("C07:memory-pair-not-of-this-device:by-bytes", "%s: GPU %d (gpu-memory total %d) is charged gpu-memory-ratio %d for gpu-memory %d, which is %d percent of THIS device's memory", where, minor, T, vec[2], req[1], 100*req[1]/T)
+			return false
+		}
+	}
+	return true
+}
+
+func c07FillObs(h *vHarness, al []c07Alloc, req c07Vec) {
+	ms := make([]int, 0, len(al))
+	o := strconv.Itoa(len(al))
+	for _, a := range al {
+		ms = append(ms, a.minor)
+		o += fmt.Sprintf(" %d %s", a.minor, a.vec.tok())
+	}
+	h.Op("fill %s %s", c07IntsTok(ms), req.tok())
+	h.Obs("fill %s", o)
+}
+
 type c07PathPod struct {
 	id    int
 	pod   *corev1.Pod
@@ -1888,6 +1928,7 @@ func TestVerifC07Path(t *testing.T) {
 	heteroEnv := os.Getenv("VERIF_C07_HETERO") // "1": every case, "0": never, unset: 1 case in 8 (open known finding)
 	stale := os.Getenv("VERIF_C07_STALE") == "1"
 	driftEnv := os.Getenv("VERIF_C07_DRIFT") // "1": every case, "0": never, unset: 1 case in 10 runs the directed memory / ratio drift pattern
+	mixEnv := os.Getenv("VERIF_C07_MIXMEM") // "1": every case, "0": never, unset: 1 case in 3 has GPUs with DIFFERENT memory sizes (16Gi / 32Gi / 80Gi) on the node
 	node := &corev1.Node{ObjectMeta: metav1.ObjectMeta{Name: c07Node}}
 	suit := newPluginTestSuit(t, []*corev1.Node{node})
 	p, err := suit.proxyNew(context.TODO(), getDefaultArgs(), suit.Framework)
@@ -1926,8 +1967,28 @@ func TestVerifC07Path(t *testing.T) {
 		}
 		perm := r.Perm(6)
 		mem := int64(r.Pick([]int64{16 << 30, 80 << 30}))
+		// extension 6: GPUs of DIFFERENT memory sizes on one node (at least two sizes), more multi-GPU pods (by ratio and by bytes)
+		mixed := !hetero && !drift && (mixEnv == "1" || (mixEnv != "0" && r.Chance(1, 3)))
+		sizes := []int64{16 << 30, 32 << 30, 80 << 30}
+		sizeOff := 0
+		if mixed {
+			h.Tag("stream:mixed-memory-sizes")
+			ng = r.Range(2, 4)
+			sizeOff = r.Intn(3)
+		}
 		for i := 0; i < ng; i++ {
-			d := c07Dev{minor: perm[i], healthy: drift || !r.Chance(1, 10), res: c07Vec{100, mem, 100}, numa: -1}
+			dm := mem
+			if mixed {
+				if i < 2 {
+					dm = sizes[(sizeOff+i)%3]
+				} else {
+					dm = int64(r.Pick(sizes))
+				}
+			}
+			d := c07Dev{minor: perm[i], healthy: drift || !r.Chance(1, 10), res: c07Vec{100, dm, 100}, numa: -1}
+			if mixed && i < 2 && r.Chance(2, 3) {
+				d.healthy = true
+			}
 			if hetero && r.Chance(1, 3) {
 				// a device that does not expose gpu-core (or gpu-memory-ratio).  A device without gpu-memory is left out on
 				// purpose: a gpu-core+gpu-memory pod lands on it and fillGPUTotalMem then divides by the missing total
@@ -2055,6 +2116,26 @@ func TestVerifC07Path(t *testing.T) {
 				}
 				_ = i
 			}
+			// extension 6: the dimension the pod did not request is charged from THIS device's own memory size
+			for _, a := range g[0] {
+				rr := before.rows[[2]int{0, a.minor}]
+				if !c07MemPairCheck(h, fmt.Sprintf("pod %d (%d GPU x %v)", id, cnt, req), a.minor, req, a.vec, before.row(0, a.minor).t[1], rr != nil && rr.tp[1] && rr.tp[2]) {
+					break
+				}
+			}
+			if mixed && cnt > 1 {
+				h.Tag("mixed:multi-gpu-commit")
+				ts := map[int64]bool{}
+				for _, a := range g[0] {
+					ts[before.row(0, a.minor).t[1]] = true
+				}
+				if len(ts) > 1 {
+					h.Tag("mixed:multi-gpu-commit-over-different-sizes")
+				}
+			}
+			// extension 6: the amounts fillGPUTotalMem put into the allocator's answer are MODELLED (fillGPU on the model's own
+			// totals of this moment), entry by entry in the allocator's order
+			c07FillObs(h, g[0], req)
 			// the commit Reserve made
 			h.Op("add %d %s", id, g.tok())
 			for _, tt := range g.types() {
@@ -2126,6 +2207,48 @@ func TestVerifC07Path(t *testing.T) {
 				schedPod(id, 1, c07Vec{-1, -1, left}, corev1.ResourceList{apiext.ResourceGPUMemoryRatio: *resource.NewQuantity(left, resource.DecimalSI)})
 			}
 		}
+		memOfSome := func() int64 { // the memory size a byte request is a share of: of some GPU of the node
+			if !mixed {
+				return mem
+			}
+			return c.inv[0][r.Intn(len(c.inv[0]))].res[1]
+		}
+		if mixed && r.Chance(1, 3) {
+			// directed: a pod takes 2 whole GPUs (by vendor count, by ratio 200, or by gpu.shared 2 + bytes of the SMALLEST card
+			// twice), then byte-only / ratio-only pods ask for what a wrongly sized charge would leave as phantom free memory
+			h.Tag("stream:mixed-directed")
+			id := c.nextPod
+			c.nextPod++
+			small := c.inv[0][0].res[1]
+			for _, d := range c.inv[0] {
+				if d.res[1] < small {
+					small = d.res[1]
+				}
+			}
+			switch r.Intn(3) {
+			case 0:
+				schedPod(id, 2, c07Vec{100, -1, 100}, corev1.ResourceList{apiext.ResourceNvidiaGPU: *resource.NewQuantity(2, resource.DecimalSI)})
+			case 1:
+				schedPod(id, 2, c07Vec{-1, -1, 100}, corev1.ResourceList{apiext.ResourceGPUMemoryRatio: *resource.NewQuantity(200, resource.DecimalSI)})
+			default:
+				schedPod(id, 2, c07Vec{-1, small, -1}, corev1.ResourceList{apiext.ResourceGPUShared: *resource.NewQuantity(2, resource.DecimalSI), apiext.ResourceGPUMemory: *resource.NewQuantity(2*small, resource.BinarySI)})
+			}
+			for i, k := 0, r.Range(1, 2); i < k; i++ {
+				id := c.nextPod
+				c.nextPod++
+				if r.Chance(2, 3) {
+					b := int64(r.Pick([]int64{16 << 30, 8 << 30, 48 << 30}))
+					schedPod(id, 1, c07Vec{-1, b, -1}, corev1.ResourceList{apiext.ResourceGPUMemory: *resource.NewQuantity(b, resource.BinarySI)})
+				} else {
+					v := int64(r.Pick([]int64{50, 80}))
+					schedPod(id, 1, c07Vec{-1, -1, v}, corev1.ResourceList{apiext.ResourceGPUMemoryRatio: *resource.NewQuantity(v, resource.DecimalSI)})
+				}
+			}
+		}
+		nshape := 6
+		if mixed {
+			nshape = 10
+		}
 		for s := 0; s < steps; s++ {
 			x := r.Intn(100)
 			switch {
@@ -2136,7 +2259,34 @@ func TestVerifC07Path(t *testing.T) {
 				cnt := 1
 				req := c07Absent
 				podReq := corev1.ResourceList{}
-				switch r.Intn(6) {
+				switch r.Intn(nshape) {
+				case 6: // (mixed sizes only) several whole GPUs by memory ratio alone
+					cnt = r.Range(2, 3)
+					req = c07Vec{-1, -1, 100}
+					podReq[apiext.ResourceGPUMemoryRatio] = *resource.NewQuantity(100*int64(cnt), resource.DecimalSI)
+					h.Tag("shape:ratio-only-multi")
+				case 7: // (mixed sizes only) gpu.shared n + gpu-memory in BYTES: n GPUs, the same bytes on each
+					cnt = r.Range(2, 3)
+					b := memOfSome() * int64(r.Pick([]int64{250, 500, 125, 77, 1000})) / 1000
+					req = c07Vec{-1, b, -1}
+					podReq[apiext.ResourceGPUShared] = *resource.NewQuantity(int64(cnt), resource.DecimalSI)
+					podReq[apiext.ResourceGPUMemory] = *resource.NewQuantity(b*int64(cnt), resource.BinarySI)
+					h.Tag("shape:shared+memory-multi")
+				case 8: // (mixed sizes only) gpu.shared n + gpu-core + gpu-memory-ratio: n GPUs, a fraction of each
+					cnt = r.Range(2, 3)
+					req = c07Vec{int64(r.Pick([]int64{20, 50})), -1, int64(r.Pick([]int64{30, 50, 100}))}
+					podReq[apiext.ResourceGPUShared] = *resource.NewQuantity(int64(cnt), resource.DecimalSI)
+					podReq[apiext.ResourceGPUCore] = *resource.NewQuantity(req[0]*int64(cnt), resource.DecimalSI)
+					podReq[apiext.ResourceGPUMemoryRatio] = *resource.NewQuantity(req[2]*int64(cnt), resource.DecimalSI)
+					h.Tag("shape:shared+core+ratio-multi")
+				case 9: // (mixed sizes only) gpu.shared n + gpu-core + gpu-memory in BYTES
+					cnt = r.Range(2, 3)
+					b := memOfSome() * int64(r.Pick([]int64{250, 500, 333})) / 1000
+					req = c07Vec{int64(r.Pick([]int64{20, 50})), b, -1}
+					podReq[apiext.ResourceGPUShared] = *resource.NewQuantity(int64(cnt), resource.DecimalSI)
+					podReq[apiext.ResourceGPUCore] = *resource.NewQuantity(req[0]*int64(cnt), resource.DecimalSI)
+					podReq[apiext.ResourceGPUMemory] = *resource.NewQuantity(b*int64(cnt), resource.BinarySI)
+					h.Tag("shape:shared+core+memory-multi")
 				case 0: // whole GPUs by vendor resource
 					cnt = r.Range(1, 3)
 					req = c07Vec{100, -1, 100}
@@ -2167,7 +2317,7 @@ func TestVerifC07Path(t *testing.T) {
 					podReq[apiext.ResourceGPUMemoryRatio] = *resource.NewQuantity(req[2], resource.DecimalSI)
 					h.Tag("shape:ratio-only")
 				default: // gpu-core + gpu-memory (bytes)
-					req = c07Vec{int64(r.Pick([]int64{20, 50, 100})), mem * int64(r.Pick([]int64{19, 77, 125, 250, 333, 500})) / 1000, -1}
+					req = c07Vec{int64(r.Pick([]int64{20, 50, 100})), memOfSome() * int64(r.Pick([]int64{19, 77, 125, 250, 333, 500})) / 1000, -1}
 					podReq[apiext.ResourceGPUCore] = *resource.NewQuantity(req[0], resource.DecimalSI)
 					podReq[apiext.ResourceGPUMemory] = *resource.NewQuantity(req[1], resource.BinarySI)
 					h.Tag("shape:core+memory")
